@@ -5,7 +5,10 @@
 (* is consumed event by event; an action is enabled only if the event is   *)
 (* legal in the current span tree.  A stream is accepted iff all of its    *)
 (* events are consumed (position Len+1 is reached) and the final state is  *)
-(* closed (nothing open, shutdown seen exactly once, last).                *)
+(* closed (nothing open, shutdown seen exactly once, last).  A call the    *)
+(* runner REJECTS (trace status "rejected": invalid option, missing input,  *)
+(* incompatible runner, bad map arguments) emits nothing at all: no event   *)
+(* is enabled, not even the shutdown.                                       *)
 (*                                                                         *)
 (* Event record: [t, span, parent, node, graph, status, ismap]             *)
 (*   t \in RunStart | RunEnd | NodeStart | NodeEnd | NodeError | CacheHit  *)
@@ -36,7 +39,7 @@ Fresh(s)   == s \notin DOMAIN kindOf
 \* item of a map -- under the open map-run span
 RunStart ==
   /\ IsEvent("RunStart") /\ Fresh(Ev.span)
-  /\ IF Ev.parent = None THEN l = 1 /\ rootSpan' = Ev.span
+  /\ IF Ev.parent = None THEN l = 1 /\ rootSpan' = Ev.span /\ Traces[tid].status # "rejected"   \* a rejected call emits nothing
      ELSE /\ Ev.parent \in open /\ UNCHANGED rootSpan
           /\ \/ /\ kindOf[Ev.parent] = "node"
                 /\ \E i \in 1..Len(Traces[tid].graphnodes) :      \* the node that launched it wraps this very graph
@@ -101,5 +104,6 @@ Spec == Init /\ [][Next]_vars
 \* verdict: the furthest position reached per trace (printed; harness keeps the maximum), and
 \* whether the stream ended closed
 Progress == PrintT(<<"AT", Traces[tid].id, l,
-                     l = Len(T) + 1 /\ (Len(T) = 0 \/ (shut = 1 /\ open = {} /\ rootClosed))>>)
+                     l = Len(T) + 1 /\ IF Traces[tid].status = "rejected" THEN Len(T) = 0
+                                        ELSE shut = 1 /\ open = {} /\ rootClosed>>)
 =======================================================================
